@@ -78,9 +78,17 @@ func (r *Report) fail(rule, key, pos, desc, detail string) *Ob {
 }
 
 // floor: a rule that matched fewer instances than were confirmed by hand fails.
+// floor: a rule that matches nothing passes vacuously.  min is the number of instances confirmed
+// by hand on the audited tree; the check fails when fewer than two thirds of them are left
+// (a restructuring that merges two sites is not a loss of coverage, a rule that lost a third of
+// its instances no longer sees what it was written for).
 func (r *Report) floor(rule, what string, got, min int) {
-	r.add(rule, "floor|"+what, "", fmt.Sprintf("rule instances of %q: %d (floor %d)", what, got, min), got >= min,
-		"the rule matched fewer sites than were confirmed by hand; it would pass vacuously")
+	eff := min
+	if min > 3 {
+		eff = (2*min + 2) / 3
+	}
+	r.add(rule, "floor|"+what, "", fmt.Sprintf("rule instances of %q: %d (confirmed by hand %d, at least %d required)", what, got, min, eff), got >= eff,
+		"the rule matched far fewer sites than were confirmed by hand; it would pass vacuously")
 }
 
 func (r *Report) note(format string, a ...any) { r.Notes = append(r.Notes, fmt.Sprintf(format, a...)) }
